@@ -17,10 +17,10 @@ from ..core import Part, Inconclusive
 
 PROPERTY = "C18"
 RULE = ("hyp: sequence (N=6..14 with kappa defined and >=2 residues of one charge sign so that every move is defined) x bin geometry drawn "
-        "constructively as (M, lo, nb): partition of [0,1] into M in 2..12 equal bins, window of nb bins starting at bin lo, passed as "
+        "constructively as (M, lo, nb): partition of [0,1] into M in 2..12 (a quarter of the cases 13..45) equal bins, window of nb bins starting at bin lo, passed as "
         "binmin=lo/M, binmax=(lo+nb)/M, nbins=nb x flat-check period in {1,2,5,10..60} x flatness criterion in {0,0.1..0.9} x convergence in "
         "{e^0.6, e^0.3, e^0.15, e^0.08} (1-4 iterations) x tape seed; draw budget 40 000 (quick) / 200 000 (thorough) per run (runs cut by the "
-        "budget are checked as prefixes). Oracle: reference WL model replayed on the same tape - move class from the selector draw by the "
+        "budget are checked as prefixes). enum-geometry: bin centres and window of the constructed machine for every aligned request of every partition with up to 60/120 bins. Oracle: reference WL model replayed on the same tape - move class from the selector draw by the "
         "documented weights 1:41.5:69.3:78.2, move called on the model's current sequence, child a rearrangement of the input, bin = nearest "
         "centre of the equal partition for the child's true (fresh-object) kappa, out-of-window proposals never accepted and not counted, "
         "in-window proposals accepted iff u < min(1, exp(g_old-g_new)), g += ln f and H += 1 at the occupied bin, at every scheduled check "
@@ -408,7 +408,7 @@ def wl_seq(draw):
 @st.composite
 def hyp_case(draw, budget):
     seq = draw(wl_seq())
-    M = draw(st.one_of(st.integers(3, 12), st.integers(2, 12)))
+    M = draw(st.one_of(st.integers(3, 12), st.integers(2, 12), st.integers(3, 12), st.integers(13, 45)))
     lo = draw(st.integers(0, M - 1))
     nb = draw(st.one_of(st.just(M - lo), st.integers(1, M - lo), st.integers(1, M - lo)))
     if draw(st.integers(0, 3)) == 0:
@@ -417,7 +417,11 @@ def hyp_case(draw, budget):
     crit = draw(st.sampled_from([0, 0, 0.1, 0.2, 0.3, 0.5, 0.7, 0.9]))
     conv = draw(st.sampled_from([0.6, 0.6, 0.3, 0.15, 0.08]))
     case = {"seq": seq, "M": M, "lo": lo, "nb": nb, "period": period, "crit": crit, "conv": conv, "tape": draw(st.integers(0, 2 ** 32 - 1)), "budget": budget}
-    if draw(st.integers(0, 4)) == 0:
+    if M > 12:
+        case["crit"] = 0          # many bins: most are unreachable for a short sequence, so only criterion 0 terminates
+        case["conv"] = 0.6
+        case["period"] = min(case["period"], 20)
+    if draw(st.integers(0, 4)) == 0 and M <= 12:
         case["conv_k"] = draw(st.integers(1, 3))      # stop exactly when f EQUALS the threshold
     if draw(st.integers(0, 5)) == 0:
         case["second_run"] = True
@@ -427,8 +431,34 @@ def hyp_case(draw, budget):
     return case
 
 
+def geometry_cases(tier, seed):
+    hi = 60 if tier == "quick" else 120
+    for M in range(2, hi + 1):
+        for lo in range(M):
+            for nb in sorted(set([1, M - lo, max(1, (M - lo) // 2)])):
+                yield {"M": M, "lo": lo, "nb": nb, "geometry_only": True}
+
+
+def check_geometry(ctx, case):
+    """Bin centres and window of the constructed machine for an aligned request (no sampling)."""
+    if not case.get("geometry_only"):
+        return check(ctx, case)
+    from localcider.backend.wang_landau import WangLandauMachine
+    binmin, binmax, nbins = geometry(case)
+    M = case["M"]
+    ctx.count(case, nontrivial=True, classes=["geometry"])
+    m = WangLandauMachine("EKEKGSEK", tempfile.gettempdir(), set(), nbins, binmin, binmax, 10, 0.5, 1.5)
+    centres = [(i + 0.5) / M for i in range(M)]
+    got = [float(x) for x in m.getBinCenters()]
+    ctx.check(int(m.nbins_actual) == M and len(got) == M and all(ref.close(a, b) for a, b in zip(got, centres)), "bin-centres",
+              "request [%r, %r] with %d bins: %d bins with centres %r..., expected the %d midpoints of the equal partition" % (binmin, binmax, nbins, m.nbins_actual, got[:3], M), case)
+    ctx.check((int(m.relevant_min), int(m.relevant_max)) == (case["lo"], case["lo"] + nbins - 1), "window",
+              "request [%r, %r] with %d bins of a %d-bin partition: window %d..%d, expected %d..%d" % (binmin, binmax, nbins, M, m.relevant_min, m.relevant_max, case["lo"], case["lo"] + nbins - 1), case)
+
+
 def parts(tier):
     return [
+        Part("enum-geometry", "enum", check=check_geometry, cases=geometry_cases, exhaustive=True, shards={"quick": 8, "thorough": 16}),
         Part("hyp-wl-runs", "hyp", check=check, strategy=lambda t: hyp_case(40000 if t == "quick" else 200000),
              examples={"quick": 320, "thorough": 4800}, shards={"quick": 16, "thorough": 16}),
     ]
